@@ -377,17 +377,30 @@ func (gopt *GetOpt) Parse(args []string) ([]string, error) {
 		}
 	}
 
-	for _, option := range node.UnknownOptions {
-		// Check for unknown mode at the node that we want to validate
-		switch gopt.finalNode.unknownMode {
-		case Fail:
-			return nil, fmt.Errorf(text.MessageOnUnknown, option.Name)
-		case Warn:
-			fmt.Fprintf(Writer, text.WarningOnUnknown+"\n", option.Name)
+	// Unknown options and text given before a command name are tracked at the level they were given at.
+	// Walk from the node Parse was called on down to the final node.
+	levels := []*programTree{}
+	for n := node; n != nil; n = n.Parent {
+		levels = append([]*programTree{n}, levels...)
+		if n == gopt.programTree {
+			break
 		}
 	}
+	var remaining []string
+	for _, n := range levels {
+		for _, option := range n.UnknownOptions {
+			// Check for unknown mode at the node that we want to validate
+			switch n.unknownMode {
+			case Fail:
+				return nil, fmt.Errorf(text.MessageOnUnknown, option.Name)
+			case Warn:
+				fmt.Fprintf(Writer, text.WarningOnUnknown+"\n", option.Name)
+			}
+		}
+		remaining = append(remaining, n.ChildText...)
+	}
 
-	return node.ChildText, nil
+	return remaining, nil
 }
 
 // Dispatch - Handles calling commands and subcommands after the call to Parse.
